@@ -75,6 +75,11 @@ CHECKS = {
    text="Harmless (a context of a successfully returned call never closes the connection) holds for unbounded programs by Apalache's inductive check (init + step; the variant without the hand-back fails the step), TLC checks bounded programs; 84-210 programs x role x compression are run with each context cancelled after success or while blocked (transport, mid-message, message lock, pong) and their hook traces are validated: every context handed to the timeoutLoop matches what the sender logged, and no fired context belongs to a successful call.",
    note="'promptly' is 2 s measured. The abstraction is bound to the code through the hand-off rules checked on traces, not by a proof.",
    design="6/C10"),
+ "C07": dict(
+   technique="TLA+ ownership model of pooled decompressors across connections (spec/WSPool.tla) checked by TLC, pre-fix deviation must be caught; TLC trace validation (TracePool.tla) of all pool Get/Put/Use-interval events of several connections in one global order; connection-tagged payload provenance on the same executions",
+   text="TLC checks UseImpliesOwner/NoSharedOwner for two connections and two objects over every program of 8 steps (start, read part, read to end, read again, close); on the real code 300 (quick) / 4000 (thorough) seeded programs over 2-3 live connections (incl. the scripted hand-over and closes injected mid-message) are run in one goroutine so that sync.Pool reuse is deterministic; every byte returned is attributed to its connection and every pool event is validated: no use of an object the connection does not own, no put during an open use interval, no hand-out while owned.",
+   note="Object identity is the address (never dereferenced); objects of closed connections are treated as dropped. Pool reuse affects what is reached, never the verdict.",
+   design="6/C07"),
  "C03": dict(
    technique="TLA+ reference decoder (spec/WSRecv.tla) model-checked by TLC; TLC-generated behaviours (all frame streams up to a length bound) replayed into the real Conn and compared with the specification's predicted reaction",
    text="TLC checks the reference decoder automaton and enumerates every frame stream of <=3 (quick) / <=4 (thorough) letters over a 43-letter alphabet of valid and single-violation frames; each is serialised by an independent raw peer and fed to a real Conn in both roles, compression modes and transport chunkings; messages, Pongs, Close echo, failing read and absence of panics are compared with React/Run. Exhaustive within the alphabet and length bound.",
